@@ -37,6 +37,8 @@ type rpStep struct {
 	ConfIRTs []string `json:"conf_irts,omitempty"`
 	Layout   int      `json:"layout,omitempty"`
 	Encrypt  bool     `json:"encrypt,omitempty"`
+	NoDest   bool     `json:"no_destination,omitempty"` // unsigned Response without a Destination attribute (legal: Destination is optional)
+	Methods  []string `json:"conf_methods,omitempty"`   // per confirmation: "" = bearer, else the method URN
 	// deliver
 	Resp  int    `json:"resp,omitempty"`
 	Entry string `json:"entry,omitempty"` // xml | post | artifact
@@ -72,6 +74,10 @@ func genReplay(g *Rng, tier string) *Plan {
 					c = "resolve-id" // an IdP that stamps the artifact-resolution request's ID on everything it returns
 				}
 				st.ConfIRTs = append(st.ConfIRTs, c)
+				st.Methods = append(st.Methods, []string{"", "urn:oasis:names:tc:SAML:2.0:cm:holder-of-key", "urn:oasis:names:tc:SAML:2.0:cm:sender-vouches", "urn:example:cm:none"}[g.PickW(14, 2, 2, 1)])
+			}
+			if st.Layout == 1 && g.Bool(0.4) {
+				st.NoDest = true
 			}
 			steps = append(steps, st)
 			nresps++
@@ -231,10 +237,17 @@ func execReplay(t *testing.T, p *Plan) *Result {
 			a := AsrtSpec{ID: fmt.Sprintf("id-as-%d", len(resps)), Issuer: idpEntity, NameID: marker("nid", len(resps)), NotBefore: i64(-1000), NotOnOrAfter: i64(3_600_000),
 				Audiences: []string{spBase + "/saml/metadata"}, Sign: st.Layout != 0 || st.Encrypt, Encrypt: st.Encrypt, EncryptTo: 1, SessionIndex: "si"}
 			r := &resp{flow: st.Flow, irt: spec.InResponseTo, at: time.Now()}
-			for _, c := range st.ConfIRTs {
+			if st.NoDest && !spec.Sign {
+				spec.Destination = ""
+			}
+			for ci, c := range st.ConfIRTs {
 				v := pick(c)
 				r.confIRTs = append(r.confIRTs, v)
-				a.Confs = append(a.Confs, ConfSpec{NotOnOrAfter: i64(3_600_000), Recipient: spBase + "/saml/acs", InResponseTo: v})
+				m := ""
+				if ci < len(st.Methods) {
+					m = st.Methods[ci]
+				}
+				a.Confs = append(a.Confs, ConfSpec{Method: m, NotOnOrAfter: i64(3_600_000), Recipient: spBase + "/saml/acs", InResponseTo: v})
 			}
 			spec.Assertions = []AsrtSpec{a}
 			r.spec = spec
